@@ -322,6 +322,12 @@ func recordParse(args []string) error {
 		switch i % 5 {
 		case 0, 1: // sentence, optionally with a field list
 			t := g.tree(1+g.rng.Intn(5), 1+g.rng.Intn(4), true)
+			if i%50 == 10 {
+				t = &vx.QTree{Op: []string{"and", "or"}[g.rng.Intn(2)]}
+				for k := []int{15, 16, 17, 31, 32, 33, 64, 100}[g.rng.Intn(8)]; k > 0; k-- {
+					t.Es = append(t.Es, g.leaf(true))
+				}
+			}
 			s = g.sentence(t, true)
 			if g.rng.Intn(3) == 0 {
 				s += " ; " + fieldPool[g.rng.Intn(len(fieldPool))]
@@ -459,6 +465,13 @@ func recordRoundTrip(args []string) error {
 	g := &qgen{rng: rand.New(rand.NewSource(*seed))}
 	for i := 0; i < *n; i++ {
 		t := g.tree(1+g.rng.Intn(7), 1+g.rng.Intn(5), true)
+		if i%75 == 7 {
+			// a very wide flat node (several KiB of text), followed by ordinary trees
+			t = &vx.QTree{Op: []string{"and", "or"}[g.rng.Intn(2)]}
+			for k := 270 + g.rng.Intn(60); k > 0; k-- {
+				t.Es = append(t.Es, g.leaf(true))
+			}
+		}
 		gb := [][]int{}
 		for g.rng.Intn(3) == 0 && len(gb) < 6 {
 			gb = append(gb, vx.BytesOf(fieldPool[g.rng.Intn(len(fieldPool))]))
